@@ -144,11 +144,13 @@ def run(ctx):
         if fn is not None:
             ctx.count(("legacy", h, tuple(a)))
             w, exc = observe(fn, port)
-            if h in GATED and w[:1] == ["V\r"]:
+            if h in GATED and [x.upper() for x in w[:1]] == ["V\r"]:
                 w = w[1:]
             got["legacy"] = w
             if exc:
                 ctx.violation("text.legacy_raises", dict(case, layer="legacy"), want, exc)
+            elif w != want and h == "query_motors_pins" and sorted(w) == sorted(want):
+                ctx.note_drift("the five independent pin reads come in another order than the table's", dict(case, layer="legacy"))
             elif w != want and h in FREE:
                 pending.append((free_event(h, a, w), dict(case, layer="legacy"), want, w))
             elif w != want:
@@ -156,7 +158,7 @@ def run(ctx):
             else:
                 # the same request again through the same port: the same text again (nothing remembered from the first call)
                 _w2, exc2 = observe(fn, port)
-                again = [x for x in port.writes if not (h in GATED and x == "V\r")]
+                again = [x for x in port.writes if not (h in GATED and x.upper() == "V\r")]
                 if exc2 or again != want + want:
                     ctx.violation("text.repeated_request_same_text", dict(case, layer="legacy", repeat=2), want + want, exc2 or again)
             # with no port nothing is sent (and nothing raised)
@@ -251,7 +253,7 @@ def replay(rec):
         rp = ebbfake.LegacyOKPort()
         for _k in range(reps):
             w, exc = observe(legacy_call(em, es, h, a, port), port if port is not None else rp)
-        w = [x for x in w if not (h in GATED and x == "V\r")]
+        w = [x for x in w if not (h in GATED and x.upper() == "V\r")]
     else:
         port3 = ebbfake.EchoPort((a[2], a[3]) if h == "motors_enable" else (0, 0), delay=c.get("delay", 0))
         obj = e3m.EBBMotionWrap()
